@@ -45,7 +45,7 @@ structure Mfhd where
 
 def Mfhd.Wf (x : Mfhd) : Prop :=
   x.version < 256 ∧ x.flags < 16777216 ∧ x.sequence_number < 4294967296
-instance (x : Mfhd) : Decidable x.Wf := by unfold Mfhd.Wf; infer_instance
+instance instBasic1 (x : Mfhd) : Decidable x.Wf := by unfold Mfhd.Wf; infer_instance
 
 def encMfhd (x : Mfhd) : Bytes :=
   encU8 x.version ++ (encU24 x.flags ++ encU32 x.sequence_number)
@@ -68,7 +68,7 @@ structure Tfdt where
 def Tfdt.Wf (x : Tfdt) : Prop :=
   x.version < 256 ∧ x.flags < 16777216 ∧
   x.base_media_decode_time < wBound (x.version == 1)
-instance (x : Tfdt) : Decidable x.Wf := by unfold Tfdt.Wf; infer_instance
+instance instBasic2 (x : Tfdt) : Decidable x.Wf := by unfold Tfdt.Wf; infer_instance
 
 /-- `encode_box_fields`: 64 bit iff `version == 1` -/
 def encTfdt (x : Tfdt) : Bytes :=
@@ -101,7 +101,7 @@ structure Mehd where
 def Mehd.Wf (x : Mehd) : Prop :=
   x.version < 256 ∧ x.flags < 16777216 ∧
   x.fragment_duration < wBound (x.version == 1)
-instance (x : Mehd) : Decidable x.Wf := by unfold Mehd.Wf; infer_instance
+instance instBasic3 (x : Mehd) : Decidable x.Wf := by unfold Mehd.Wf; infer_instance
 
 def encMehd (x : Mehd) : Bytes :=
   encU8 x.version ++ (encU24 x.flags ++
@@ -130,7 +130,7 @@ def Trex.Wf (x : Trex) : Prop :=
   x.version < 256 ∧ x.flags < 16777216 ∧ x.track_id < 4294967296 ∧
   x.default_sample_description_index < 4294967296 ∧ x.default_sample_duration < 4294967296 ∧
   x.default_sample_size < 4294967296 ∧ x.default_sample_flags < 4294967296
-instance (x : Trex) : Decidable x.Wf := by unfold Trex.Wf; infer_instance
+instance instBasic4 (x : Trex) : Decidable x.Wf := by unfold Trex.Wf; infer_instance
 
 def encTrex (x : Trex) : Bytes :=
   encU8 x.version ++ (encU24 x.flags ++ (encU32 x.track_id ++
@@ -163,7 +163,7 @@ structure Tenc where
 def Tenc.Wf (x : Tenc) : Prop :=
   x.version < 256 ∧ x.flags < 16777216 ∧ x.is_encrypted < 16777216 ∧ x.iv_size < 256 ∧
   x.default_kid.length = 16
-instance (x : Tenc) : Decidable x.Wf := by unfold Tenc.Wf; infer_instance
+instance instBasic5 (x : Tenc) : Decidable x.Wf := by unfold Tenc.Wf; infer_instance
 
 def encTenc (x : Tenc) : Bytes :=
   encU8 x.version ++ (encU24 x.flags ++ (encU24 x.is_encrypted ++ (encU8 x.iv_size ++ x.default_kid)))
@@ -189,7 +189,7 @@ structure Ftyp where
 def Ftyp.Wf (x : Ftyp) : Prop :=
   x.major_brand.length = 4 ∧ x.minor_version < 4294967296 ∧
   ∀ b ∈ x.compatible_brands, b.length = 4
-instance (x : Ftyp) : Decidable x.Wf := by unfold Ftyp.Wf; infer_instance
+instance instBasic6 (x : Ftyp) : Decidable x.Wf := by unfold Ftyp.Wf; infer_instance
 
 def encFtyp (x : Ftyp) : Bytes :=
   x.major_brand ++ (encU32 x.minor_version ++ encMany id x.compatible_brands)
